@@ -208,6 +208,11 @@ class Result:
                     "evaluations": 0, "distinct_nontrivial": 0, "rule": "", "samples": [], "distribution": {}}
         self.assumptions = []
         self.notes = []
+        # replay files of earlier runs of this property are stale once a new run starts
+        if os.path.isdir(REPLAYS):
+            for f in os.listdir(REPLAYS):
+                if f.startswith(pid + "-") and f.endswith(".json"):
+                    os.remove(os.path.join(REPLAYS, f))
 
     def replay_path(self, tag):
         os.makedirs(REPLAYS, exist_ok=True)
